@@ -36,6 +36,26 @@ theorem exec_role (c : Cfg) (p : Pc) (hwf : PcWF c p) (id : Nat) (hex : p.exec =
 /-- states reachable from the initial state of configuration `c` -/
 def Reach (c : Cfg) (s : State) : Prop := Reachable (· = State.init c) (Step c) s
 
+/-- executable replay of a list of labelled steps (used for the non-vacuity examples) -/
+def runTrace (c : Cfg) : State → List (Nat × Lbl) → Option State
+  | s, [] => some s
+  | s, (t, lb) :: rest =>
+    match step c s t lb with
+    | some s' => runTrace c s' rest
+    | none => none
+
+theorem reach_runTrace {c : Cfg} {s s' : State} (tr : List (Nat × Lbl)) (hr : Reach c s)
+    (h : runTrace c s tr = some s') : Reach c s' := by
+  induction tr generalizing s with
+  | nil => simp only [runTrace, Option.some.injEq] at h; subst h; exact hr
+  | cons x rest ih =>
+    obtain ⟨t, lb⟩ := x
+    simp only [runTrace] at h
+    split at h
+    · rename_i s1 hs1
+      exact ih (Reachable.tail hr ⟨t, lb, hs1⟩) h
+    · cases h
+
 structure Inv (c : Cfg) (s : State) : Prop where
   i1 : Inv1 c s
   i2 : Inv2 c s
